@@ -62,6 +62,18 @@ var c20Mutations = []c20Mutation{
 		s.Pseudo = insertAt(s.Pseudo, rng.Intn(len(s.Pseudo)+1), f)
 		return true
 	}},
+	{"duplicate-pseudo-different-value", func(rng *rand.Rand, s *reqSpec) bool {
+		i := rng.Intn(len(s.Pseudo))
+		f := s.Pseudo[i]
+		f.Value = []string{"", "/other", "GET", "x", f.Value + "2"}[rng.Intn(5)]
+		// the odd one goes before or after the original
+		if rng.Intn(2) == 0 {
+			s.Pseudo = insertAt(s.Pseudo, i, f)
+		} else {
+			s.Pseudo = insertAt(s.Pseudo, i+1, f)
+		}
+		return true
+	}},
 	{"pseudo-after-regular", func(rng *rand.Rand, s *reqSpec) bool {
 		i := rng.Intn(len(s.Pseudo))
 		f := s.Pseudo[i]
@@ -263,6 +275,14 @@ func c20Scenario(r *vf.Run, t *testing.T, id string, rng *rand.Rand, g genOpts) 
 	// the verdict comes from the predicate, not from the labels (two mutations can cancel)
 	wfReason := ""
 	wellFormed, wfReason = wellFormedRequest(append(append([]F{}, bad.Pseudo...), bad.Fields...), bad.Trailers, len(bad.Body))
+	viaRoll := rng.Intn(4) == 0
+	viaIndex := !wellFormed && viaRoll && bad.EndMode == 0
+	if viaIndex {
+		// later requests use ids above the replayed one
+		for i := nBefore + 1; i < len(reqs); i++ {
+			reqs[i].Stream += 2000
+		}
+	}
 	hugeCL := false
 	for _, f := range bad.Fields {
 		if f.Name == "content-length" && len(strings.TrimLeft(f.Value, "0123456789")) == 0 && len(strings.TrimLeft(f.Value, "0")) > 9 {
@@ -311,6 +331,18 @@ func c20Scenario(r *vf.Run, t *testing.T, id string, rng *rand.Rand, g genOpts) 
 		}
 		for i, q := range reqs {
 			var out []byte
+			if i == nBefore && viaIndex {
+				// the offending list goes out twice: first as literals with incremental indexing (which enter the table
+				// whether or not the request is refused), then, on the next stream, as indexed references to those entries
+				first := *q
+				first.Tag, first.Stream = q.Tag+"a", q.Stream
+				first.Choices = []hpackref.Choice{{Rep: hpackref.RepIncremental}}
+				first.EndMode, first.Body, first.Trailers = 0, nil, nil
+				e.P.Write(first.headerBytes(e.P))
+				rt.Wait()
+				q.Stream = q.Stream + 1000 // a fresh, higher id for the indexed replay
+				q.Choices = []hpackref.Choice{{Rep: hpackref.RepIndexed, NameIndex: true}}
+			}
 			out = append(out, q.headerBytes(e.P)...)
 			for _, u := range q.dataUnits() {
 				out = append(out, u.frame...)
@@ -396,7 +428,10 @@ func c20Scenario(r *vf.Run, t *testing.T, id string, rng *rand.Rand, g genOpts) 
 	} else {
 		r.Inc("malformed_cases", 1)
 	}
-	r.Eval(vf.Hash(rules, nBefore, bad.EndMode, len(bad.Trailers) > 0, wellFormed), true)
+	if viaIndex {
+		r.Inc("malformed_replayed_through_table_indexes", 1)
+	}
+	r.Eval(vf.Hash(rules, nBefore, bad.EndMode, len(bad.Trailers) > 0, wellFormed, viaIndex), true)
 	if r.WantSample() {
 		r.Sample(map[string]any{"case": id, "rules_broken": rules, "position": nBefore, "pseudo": fmtFields(bad.Pseudo), "fields": fmtFields(bad.Fields), "trailers": fmtFields(bad.Trailers), "body_len": len(bad.Body)})
 	}
